@@ -178,8 +178,53 @@ def proof_step(prop_file):
     return res
 
 
+INSTR_PKGS = ["stage", "fileutil", "log", "cache"]
+INSTR_CALLS = ["Rename", "Remove", "Create", "WriteFile", "MkdirAll"]
+
+
+def instrument_sources():
+    """Crash-point instrumentation (C06/C07): copies of the non-test sources of the
+    packages that write the durable state, with every mutating os call redirected
+    to zzverif/verifos. Regenerated from /repo's current tree on every run."""
+    out = {}
+    dst_root = os.path.join(BUILD, "instr")
+    shutil.rmtree(dst_root, ignore_errors=True)
+    for pkg in INSTR_PKGS:
+        d = os.path.join(REPO, pkg)
+        if not os.path.isdir(d):
+            continue
+        for f in sorted(os.listdir(d)):
+            if not f.endswith(".go") or f.endswith("_test.go"):
+                continue
+            src = open(os.path.join(d, f)).read()
+            new = src
+            for c in INSTR_CALLS:
+                new = re.sub(r"\bos\.%s\(" % c, "verifos.%s(" % c, new)
+            if pkg == "log":
+                # the log append itself is a durable step
+                new = re.sub(r"(\n\s*)(rf\.logger\.Println\()", lambda m: m.group(1) + 'verifos.Point("logappend", rf.path); ' + m.group(2), new)
+            if new == src:
+                continue
+            imp = '\t"github.com/arm-doe/sts/zzverif/verifos"\n'
+            if "import (" in new:
+                new = new.replace("import (\n", "import (\n" + imp, 1)
+            else:
+                new = re.sub(r"(package \w+\n)", r'\1\nimport "github.com/arm-doe/sts/zzverif/verifos"\n', new, 1)
+            if re.search(r'^\s*"os"\s*$', new, flags=re.M) and not re.search(r"\bos\.", new.split(")", 1)[1] if "import (" in new else new):
+                new += "\nvar _ = os.Getpid\n"
+            os.makedirs(os.path.join(dst_root, pkg), exist_ok=True)
+            dp = os.path.join(dst_root, pkg, f)
+            open(dp, "w").write(new)
+            out[os.path.join(d, f)] = dp
+    return out
+
+
 def write_overlay():
     rep = {}
+    try:
+        rep.update(instrument_sources())
+    except Exception as e:  # instrumentation is best effort; the crash suite then reports a driver failure
+        log("instrumentation failed:", e)
     for d, _, fs in os.walk(OVERLAY_SRC):
         for f in fs:
             p = os.path.join(d, f)
